@@ -165,5 +165,18 @@ def main(argv):
     return report(prop, mod, tier, seed, res, time.time() - t0)
 
 
+def guarded_main(argv):
+    """A failure of the harness itself is never reported as a violation (exit 1 is reserved for VIOLATION lines)."""
+    try:
+        return main(argv)
+    except SystemExit:
+        raise
+    except BaseException:
+        traceback.print_exc()
+        prop = argv[0].upper() if argv else '?'
+        print(f'INCONCLUSIVE property={prop} reason=harness failure (see traceback above)')
+        return 3 if '--shard' in argv else 2
+
+
 if __name__ == '__main__':
-    sys.exit(main(sys.argv[1:]))
+    sys.exit(guarded_main(sys.argv[1:]))
